@@ -2,3 +2,4 @@ pub mod seq;
 pub mod syncmon;
 pub mod restart;
 pub mod sched;
+pub mod fault;
